@@ -267,6 +267,9 @@ def _is_computed_callable(x):
         return True
     if x[0] == "call" and x[1][0] == "field" and "Conversion" in x[1][1]:
         return True
+    # next(func for class_, func in registry.items() if ...): the first matching entry
+    if x[0] == "call" and x[1] == ("name", "next") and any(s == ("field", "_additional_conversions") for s in walk(x)):
+        return True
     return False
 
 
